@@ -329,14 +329,14 @@ def _shards(nadv):
                 out.append(sh(iv, wc, "sop == 1", "splace <= 3"))
                 out.append(sh(iv, wc, "sop == 1", "splace >= 4"))
             for iv, wc in ((0, "wc"), (4, "not wc")):
-                for g in groups:
-                    out.append(sh(iv, wc, "sop == 2", g))
+                for pl in range(top + 1):
+                    out.append(sh(iv, wc, "sop == 2", "splace == %d" % pl))
         return out
     return mk
 
 
 HARNESSES = [
-    H(loop3, shards=_shards(3), timeout={"quick": 60, "thorough": 600}),
+    H(loop3, shards=_shards(3), timeout={"quick": 100, "thorough": 600}),
     H(loop5, shards=_shards(5), timeout={"quick": 60, "thorough": 1500}, tiers=("thorough",)),
 ]
 
